@@ -19,7 +19,10 @@ fn verdict(map: &Map, key: &MasterKey, expected: &BTreeMap<Id, BTreeMap<String, 
     let st = MemStore::from_map(map.clone());
     st.0.log_reads.store(false, std::sync::atomic::Ordering::Relaxed);
     let h = st.handle(1);
-    let (v, msg) = match scn::guard(|| scn::open(&h, key).and_then(|r| scn::check_errors(&r))) {
+    // the store is opened without a cache: every second verdict is taken with trust_cache set
+    static TURN: std::sync::atomic::AtomicUsize = std::sync::atomic::AtomicUsize::new(0);
+    let trust = (TURN.fetch_add(1, std::sync::atomic::Ordering::Relaxed).wrapping_mul(2654435761) >> 7) & 1 == 1;
+    let (v, msg) = match scn::guard(|| scn::open(&h, key).and_then(|r| scn::check_errors_opts(&r, trust))) {
         Outcome::Ok(e) if e.is_empty() => ("clean".to_string(), String::new()),
         Outcome::Ok(e) => ("error".to_string(), e[0].clone()),
         Outcome::Err(e) => ("error".to_string(), format!("check failed: {e}")),
